@@ -1,16 +1,97 @@
 ALL_IDS = ["C%02d" % i for i in range(1, 21)]
 NOT_BUILT_REASON = {}
-CLAIMED = ["C08"]
+# properties registered in MANIFEST.json (their checks are silent on the unchanged tree and validated
+# against breaks); everything else is listed under not_applicable with the reason "not built yet".
+CLAIMED = ["C01", "C02", "C03", "C06", "C07", "C08", "C11", "C13", "C18", "C19"]
+
 ENGINES = [
     {"name": "config-oracle", "path": "harness/config", "serves_properties": ["C08"],
      "kind_free_text": "in-package Go harness: generated resource sets -> config.For -> interval-set oracle (math/big)"},
+    {"name": "alloc-api", "path": "harness/allocator", "serves_properties": ["C01", "C02", "C11"],
+     "kind_free_text": "allocator API histories (Assign/Allocate/AllocateFromPool/additional family/Unassign/SetPools) with step monitors on a snapshot of the allocator's bookkeeping"},
+    {"name": "box-controller", "path": "harness/controller + harness/lib/boxkernel.go", "serves_properties": ["C01", "C02", "C03", "C06", "C07", "C11"],
+     "kind_free_text": "deterministic cluster simulator: real controller + allocator + ServiceReconciler + PoolReconciler on an in-memory API store, seeded scheduler with yield points outside the Listener lock, crash points, failing status writes; reference-model oracles at handler returns and at quiescence"},
+    {"name": "l2-linearizability", "path": "harness/layer2", "serves_properties": ["C13"],
+     "kind_free_text": "concurrent histories on the real layer-2 announcer + ARP responder over an in-memory PacketConn, checked with porcupine against a sequential model, under the race detector"},
+    {"name": "conversion", "path": "harness/controllers/c18_test.go", "serves_properties": ["C18"],
+     "kind_free_text": "toConfig on all pool permutations x shuffles x repetitions; real Config/Pool reconcilers on a fake client counting handler calls"},
+    {"name": "debounce", "path": "harness/frr/c19_test.go + harness/controllers/c19_test.go", "serves_properties": ["C19"],
+     "kind_free_text": "offline checker over submit/apply event logs of the real debouncers (frr and frr-k8s) with enumerated failure patterns, under the race detector"},
 ]
+
+_BOX_NOTE = ("Trusted: the box's model of controller-runtime (queues, one worker per reconciler, retry, reload key) and of the API server "
+             "(resourceVersion conflicts, status+annotation writes); the reference model in harness/lib/allocmodel.go. Held on the histories and "
+             "interleavings observed; MetalLB-internal map iteration order is not controlled.")
+
 META = {
+    "C01": {
+        "engine": "box-controller",
+        "text": "Invariant monitor: after every allocator operation (API histories) and after every handler return (controller box) the snapshot of the allocator's memory is checked pairwise per address (key, backend, ports, coherence of the four maps); at every quiescent point the statuses in the store are checked pairwise against the statement's sharing relation with the live specs, and memory == statuses.",
+        "design_ref": "DESIGN.md 2/C01",
+        "note": _BOX_NOTE,
+        "technique": "runtime monitoring: invariant over hooked allocator state after every step + store at quiescence, under a seeded scheduler",
+    },
+    "C02": {
+        "engine": "box-controller",
+        "text": "Reference-model oracle: every placement (allocator return values; statuses at quiescence) must lie in exactly one pool of the oracle's own parse of the pool CRs, be usable, admitted by the pool's selectors, obey the family rule, the pool annotation and explicit requests; every automatic allocation event is judged against the pre-state (auto-assign, pinned before unpinned, ascending priority).",
+        "design_ref": "DESIGN.md 2/C02",
+        "note": _BOX_NOTE,
+        "technique": "runtime monitoring: reference-model oracle at allocation events and at quiescence",
+    },
+    "C03": {
+        "engine": "box-controller",
+        "text": "Frame-condition oracle between consecutive quiescent points: an untouched service whose addresses stayed admissible under every delivered configuration version keeps its set (PreferDualStack gain allowed), is written at most once per configuration version, and the second of two forced re-syncs at the end writes nothing.",
+        "design_ref": "DESIGN.md 2/C03",
+        "note": _BOX_NOTE,
+        "technique": "runtime monitoring: frame-condition oracle over recorded status writes between quiescent points",
+    },
+    "C06": {
+        "engine": "box-controller",
+        "text": "Crash-point x fault-plan enumeration: each base history is executed crash-free to enumerate its crash points (scheduler yields, before/after every status write, after every event), then re-executed with a crash at selected points (all status-write boundaries first) and failing status writes; after the restarted controller is quiescent the oracle checks that recorded admissible addresses were kept, nothing recorded was taken by an unrecorded service, exclusivity and pool policy hold and memory == statuses.",
+        "design_ref": "DESIGN.md 2/C06",
+        "note": _BOX_NOTE + " Crash indices are sampled in the quick tier (10 per history) and more densely in the thorough tier (60 per history), not all.",
+        "technique": "runtime monitoring with fault injection: crash points and failing writes, restart, state oracle",
+    },
+    "C07": {
+        "engine": "box-controller",
+        "text": "Admissibility oracle at every quiescent point: for every pending LoadBalancer service the oracle searches by brute force over the tiny pools for an admissible assignment (explicit addresses / explicit pool / auto-assign pools; free or certainly shareable addresses); finding one is a violation, named after the event that made it admissible.",
+        "design_ref": "DESIGN.md 2/C07",
+        "note": _BOX_NOTE,
+        "technique": "runtime monitoring: brute-force admissibility oracle at quiescence",
+    },
     "C08": {
         "engine": "config-oracle",
-        "text": "Generated resource sets (address-string grammar incl. IPv4-mapped, mixed-family, ranges crossing alignment, /31 /32 /127 /128; advertisements, nodes, 3 validators) are parsed by the real config.For; every accepted configuration is judged by an independent interval-set oracle (exact pool sets, pairwise disjointness, node IPs, advertisement attachment and node selection, aggregate containment, local-preference collisions). Held on the configurations observed; not a proof over all inputs.",
+        "text": "Generated resource sets (address-string grammar incl. IPv4-mapped, mixed-family, ranges crossing alignment, /31 /32 /127 /128; advertisements, multi-homed nodes, 3 validators) are parsed by the real config.For; every accepted configuration is judged by an independent interval-set oracle (exact pool sets, pairwise disjointness, node IPs, advertisement attachment and node selection, aggregate containment, local-preference collisions). Held on the configurations observed; not a proof over all inputs.",
         "design_ref": "DESIGN.md 2/C08",
         "note": "Trusted: the oracle's own parser (net/netip + math/big), Kubernetes label-selector matching (shared library). Over-rejection is not judged.",
         "technique": "runtime monitoring: reference-model oracle over generated inputs executed on the real parser",
+    },
+    "C11": {
+        "engine": "box-controller",
+        "text": "After every allocator operation / handler return: the bookkeeping must equal that of a fresh allocator rebuilt from the surviving assignments; per pool the counters must equal the distinct in-use addresses and assigned+available the oracle's usable count (math/big, saturating), never negative; every released address is probed (assign + unassign of a probe service must succeed and leave no trace).",
+        "design_ref": "DESIGN.md 2/C11",
+        "note": _BOX_NOTE,
+        "technique": "runtime monitoring: rebuild-and-compare + counting oracle + release probes on hooked allocator state",
+    },
+    "C13": {
+        "engine": "l2-linearizability",
+        "text": "Concurrent histories (3 mutators, 2 requesters, 1 gratuitous spammer) on the real Announce + arpResponder.processRequest over an in-memory PacketConn are recorded at the boundary with one logical clock and checked with porcupine against a sequential model (who holds which address with which interface scope); never-answer frames, refcounts at quiescent points and silence after the last withdraw are checked directly; all under the race detector.",
+        "design_ref": "DESIGN.md 2/C13",
+        "note": "Trusted: porcupine v1.3.0; the harness's ARP codec. NDP only through the shouldAnnounce decision; the real spamLoop cadence is not waited for.",
+        "technique": "runtime monitoring: linearizability checking of recorded concurrent histories (porcupine) + race detector",
+    },
+    "C18": {
+        "engine": "conversion",
+        "text": "For generated snapshots (3-5 objects per kind, several pools pinned to one namespace by name and by selector) toConfig is evaluated on every pool permutation x seeded shuffles of all other kinds and 20 repetitions; all values must be reflect.DeepEqual and acceptance identical; the real ConfigReconciler / PoolReconciler reconcile an unchanged store with shuffled List order and must call the handler exactly once per distinct snapshot.",
+        "design_ref": "DESIGN.md 2/C18",
+        "note": "Trusted: reflect.DeepEqual as the notion of equality (it is the reconcilers' own). Error texts are not compared.",
+        "technique": "runtime monitoring: metamorphic (permutation / repetition) equality oracle + handler-call counting",
+    },
+    "C19": {
+        "engine": "debounce",
+        "text": "The real debouncers (frr: 20 ms / 15 ms retry; frr-k8s variant with the real FRRK8sReconciler on a fake client) are driven with submission scripts (new / identical / revert / re-apply, gaps around the debounce interval, concurrent re-apply requests) and enumerated failure patterns of length <= 6; an offline checker over the stamped event log decides: applied config within the submission window, never backwards, retry after failure without new submission, last success == last submission (bounded progress with starvation canary), submitters return, identical resubmission causes no reload, bursts coalesce.",
+        "design_ref": "DESIGN.md 2/C19",
+        "note": "Eventually is decided as bounded progress (100x the interval; inconclusive if the canary saw starvation). reloadValidator's status file path is a constant and is not exercised.",
+        "technique": "runtime monitoring: offline trace checker over recorded submit/apply events with injected reload failures + race detector",
     },
 }
